@@ -10,7 +10,7 @@ TEXT = {
         technique="Lean 4 proof over tables regenerated from the Rust source by a translator, plus differential execution against project_origins on real directory chains",
         text=("Theorems (induction-free list lemmas for any chain length; `decide` over the complete, regenerated finite tables): origins = exactly the marked "
               "members of the chain; types = exactly the documented markers present with the right node type; the code's type table equals the documented "
-              "one and its marker list equals the recognised one; every project type is exactly one of VCS / software suite. The tables are regenerated from "
+              "one and its marker list equals the recognised one; origins_eq_doc / types_eq_doc: the code's functions over the regenerated tables equal the pinned specification the stream runs; every project type is exactly one of VCS / software suite. The tables are regenerated from "
               "crates/project-origins/src/lib.rs on every run, so a change to them re-checks the theorems; the listing/lookup logic is tied by a correspondence stream."),
         note=COMMON_NOTE + "Modelled: DirList::obtain as a (name, node type) listing."),
     "C19": dict(
@@ -96,7 +96,9 @@ TEXT = {
     "C09": dict(
         design_ref="§7.0, §7 C09",
         technique="Lean 4 refinement proof: every control arm and the wait branch of the job-task model is a step of the documented state machine (specStep / specExit) with the same effects and ticket moment; trace-set membership against the real start_job, state observed by run markers",
-        text=("Theorems handle_refines (all fourteen controls incl. the internal continuation) and waitBranch_refines: abs (handle s m) = specStep (abs s) m.ctl, the non-ticket log grows by "
+        text=("Theorem c09_whole_run: in every reachable state of every history (any controls at any priority, any child behaviour, any timing, handle drops, every race resolution) the "
+              "observable state and the log of process-visible effects are those of a run of the documented machine (SpecRun: one specStep per executed control, one specExit per natural "
+              "end). It is the lift, through the simulator induction principle, of handle_refines (all fourteen controls incl. the internal continuation) and waitBranch_refines: abs (handle s m) = specStep (abs s) m.ctl, the non-ticket log grows by "
               "exactly the spec's effects, the flag is raised iff the spec says now; spawn_refines (hook called once right before each spawn, previous = the finished previous run). The "
               "documented no-ops and 'wait-for-end resolves at once when nothing runs' are read off the spec."),
         note=COMMON_NOTE + "Modelled: tokio mpsc/select!/paused clock, process-wrap child (scripted child through the public spawn hook), SeqCst reading of the Relaxed atomics."),
@@ -154,7 +156,11 @@ TEXT = {
         text=("Theorems: c08_delete_after_stop (every configuration: whenever recv is about to return a Delete queued behind a Stop, nothing is running, nothing is un-reaped, and handling "
               "it ends the task), c08_delete_idle (during a quit the restart slot is empty and no process is started), timer_fires / expiry_kills / graceful_stop_step (kill exactly at "
               "the grace deadline). The worker's quit branch is composed from per-job model runs by the driver: the real main task must finish exactly when the slowest job's model run "
-              "ends, and the property's own time bound and 'nothing left alive' are checked as oracles. Partial: the time bound is not a Lean theorem; process-group members surviving "
+              "ends, and the property's own time bound and 'nothing left alive' are checked as oracles. The per-job time bound is a theorem: c08_quit_bound / c08_deadline (from ANY state, after "
+              "GracefulStop; Stop + Delete the job task is gone whenever the virtual clock exceeds the deadline = expiry of the timer armed at the quit + grace periods still queued + the "
+              "quit's own; the clock passes only while the task is idle and never beyond an armed timer — SimInv3), with idle_timer (nothing but an unexpired grace timer holds a control back). "
+              "CLI: first_interrupt_quits_gracefully / other_signals_pass / interrupts_escalate (config.rs' decision on INT / TERM), run against the real handler by the cli-quit stream and end to "
+              "end by e2e-cli (real signals to the built binary). Partial: composition over several jobs is done by the driver; process-group members surviving "
               "graceful quit / abort of a grouped command are recorded known findings (F15a, F15b), observed by the real-process stream on every run."),
         note=COMMON_NOTE + "Modelled: tokio mpsc/select!/paused clock, process-wrap child (scripted child through the public spawn hook), SeqCst reading of the Relaxed atomics."),
     "C05": dict(
@@ -165,7 +171,7 @@ TEXT = {
               "per run; never Stop/Delete/TryRestart), c04 (runs never overlap), graceful_restart_step / graceful_stop_step, and perRun_fresh (queue mode: for every interleaving of "
               "handler, job task and follow-up tasks a quiescent state is fresh) with f10_today / reorder_insufficient as kernel-checked witnesses against the old protocol and the "
               "obvious repair. The composed model (react + Jm, incl. --delay-run as a sleeping job task) must contain the real handler's child call log on every script; the F10 window "
-              "is replayed end to end on the built binary pinned to one CPU."),
+              "is replayed end to end on the built binary pinned to one CPU; the start-up run and --postpone are exercised end to end (e2e-cli)."),
         note=COMMON_NOTE + "Modelled: tokio mpsc/select!/paused clock, process-wrap child (scripted child through the public spawn hook), SeqCst reading of the Relaxed atomics." + " The composition of react with the job model is done by the driver, not proved; perRun_fresh is about the abstract protocol."),
 }
 
